@@ -196,7 +196,7 @@ class ReferenceEllipsoid:
         gp = self.polar_normal_gravity
         if ge is None or gp is None:
             raise ValueError("No valid normal gravity values.")
-        lat *= DEG2RAD
+        lat = lat*DEG2RAD       # Not in place: lat may be the caller's array
         e2 = self.first_eccentricity_squared
         k = (self.b*gp)/(self.a*ge)-1
         sin2 = np.sin(lat)**2
